@@ -45,3 +45,76 @@ Qed.
 (* the pole is cancelled exactly: (g / d^p) * d^p = g for d <> 0 *)
 Theorem residue_cancels (g d : R) p : d <> 0 -> g / d ^ p * d ^ p = g.
 Proof. intros Hd. field. apply pow_nonzero. exact Hd. Qed.
+
+(* ---- the model of Limit._lim / Residue on sequences of the modelled form ---- *)
+Definition polyv (L : R) (a : list R) (x : R) : R := L + fold_right (fun ak acc => fst ak * x ^ snd ak + acc) 0 (poly_terms a).
+Definition geo (h0 rho : R) (len : nat) : list R := map (fun t => h0 * rho ^ t) (seq 0 len).
+
+Lemma polyv_sq rho L h0 a t : polyv L a (h0 * rho ^ t) = sq rho L h0 (poly_terms a) t.
+Proof. reflexivity. Qed.
+
+Lemma lim_steps_geo eps tiny huge s h0 rho len :
+  lim_steps (OpsR eps tiny huge) s (geo h0 rho len) = geo (s * h0) rho len.
+Proof.
+  unfold lim_steps, geo. rewrite map_map. apply map_ext. intros t. cbn. ring.
+Qed.
+
+Lemma map_polyv_geo rho L h0 a len : map (polyv L a) (geo h0 rho len) = map (sq rho L h0 (poly_terms a)) (seq 0 len).
+Proof. unfold geo. rewrite map_map. apply map_ext. intros t. apply polyv_sq. Qed.
+
+(* Limit: f(z0 + h) = P(h) with P of degree <= order in h, sampled at the signed steps s * h0 rho^t: the model returns P(0) *)
+Theorem limit_model_exact eps tiny huge tf c8 c15 ch s rho L h0 (a w : list R) len hs :
+  0 <= eps ->
+  wsum w (fun _ => 1) = 1 ->
+  (forall k, (1 <= k <= length a)%nat -> wsum w (fun i => rho ^ (i * k)) = 0) ->
+  (1 <= length w)%nat -> symcode (OpsR eps tiny huge) w = 0%Z \/ length w = 1%nat ->
+  (length w <= len)%nat -> (len - (length w - 1) <= length hs)%nat ->
+  fst (fst (fst (extrapolate (OpsR eps tiny huge) tf (1/10000) c8 c15 ch
+                   (map (polyv L a) (lim_steps (OpsR eps tiny huge) s (geo h0 rho len))) hs w))) = L.
+Proof.
+  intros He H1 H2 H3 H4 H5 H6. rewrite lim_steps_geo, map_polyv_geo.
+  apply limit_exact_poly; assumption.
+Qed.
+
+Lemma powA_pow eps tiny huge d p : powA (OpsR eps tiny huge) d p = d ^ p.
+Proof. induction p as [|p IH]; cbn; [reflexivity|]. cbn in IH. rewrite IH. reflexivity. Qed.
+
+Lemma geo_nonzero h0 rho len : h0 <> 0 -> rho <> 0 -> Forall (fun h => h <> 0) (geo h0 rho len).
+Proof.
+  intros Hh Hr. unfold geo. apply Forall_forall. intros x Hx. apply in_map_iff in Hx as [t [<- _]].
+  apply Rmult_integral_contrapositive_currified; [exact Hh | apply pow_nonzero; exact Hr].
+Qed.
+
+(* Residue: f(z0 + h) = g(h) / h^p; the sequence handed to the extrapolation, f(z0 + h) * h^p, is g(h) *)
+Lemma residue_seq_cancels eps tiny huge p (g : R -> R) hs : Forall (fun h => h <> 0) hs ->
+  residue_seq (OpsR eps tiny huge) p (map (fun h => g h / h ^ p) hs) hs = map g hs.
+Proof.
+  intros HF. unfold residue_seq. induction hs as [|h t IH]; cbn; [reflexivity|].
+  inversion HF as [|? ? Hh Ht]; subst. f_equal; [|apply IH; exact Ht].
+  change (g h / h ^ p * powA (OpsR eps tiny huge) h p = g h). rewrite powA_pow. apply residue_cancels. exact Hh.
+Qed.
+
+Theorem residue_model_exact eps tiny huge tf c8 c15 ch s rho L h0 (a w : list R) p len hs :
+  0 <= eps -> s <> 0 -> h0 <> 0 -> rho <> 0 ->
+  wsum w (fun _ => 1) = 1 ->
+  (forall k, (1 <= k <= length a)%nat -> wsum w (fun i => rho ^ (i * k)) = 0) ->
+  (1 <= length w)%nat -> symcode (OpsR eps tiny huge) w = 0%Z \/ length w = 1%nat ->
+  (length w <= len)%nat -> (len - (length w - 1) <= length hs)%nat ->
+  let steps := lim_steps (OpsR eps tiny huge) s (geo h0 rho len) in
+  fst (fst (fst (extrapolate (OpsR eps tiny huge) tf (1/10000) c8 c15 ch
+                   (residue_seq (OpsR eps tiny huge) p (map (fun h => polyv L a h / h ^ p) steps) steps) hs w))) = L.
+Proof.
+  intros He Hs Hh Hr H1 H2 H3 H4 H5 H6 steps. unfold steps.
+  rewrite residue_seq_cancels.
+  - apply limit_model_exact; assumption.
+  - rewrite lim_steps_geo. apply geo_nonzero; [|exact Hr]. apply Rmult_integral_contrapositive_currified; assumption.
+Qed.
+
+(* the evaluation points lie on the requested side of z: above for sign 1, below for sign -1 (positive generator steps) *)
+Theorem lim_points_side eps tiny huge z s steps : Forall (fun h => 0 < h) steps ->
+  (s = 1 -> Forall (fun x => z < x) (lim_points (OpsR eps tiny huge) z (lim_steps (OpsR eps tiny huge) s steps))) /\
+  (s = -1 -> Forall (fun x => x < z) (lim_points (OpsR eps tiny huge) z (lim_steps (OpsR eps tiny huge) s steps))).
+Proof.
+  intros HF. unfold lim_points, lim_steps. rewrite map_map. split; intros ->; apply Forall_forall; intros x Hx;
+    apply in_map_iff in Hx as [h [<- Hin]]; rewrite Forall_forall in HF; specialize (HF h Hin); cbn; lra.
+Qed.
